@@ -16,14 +16,15 @@ class Ob:
     tier: str = "quick"
     functions: tuple = ()  # dotted names of the repo functions this obligation puts under contract
     doc: str = ""
+    any_of: tuple | None = None  # (case name, options): existential choice (e.g. role binding of loop variables)
 
 
-def obligation(props, name, split=None, tier="quick", functions=()):
+def obligation(props, name, split=None, tier="quick", functions=(), any_of=None):
     if isinstance(props, str):
         props = (props,)
 
     def deco(fn):
-        OBLIGATIONS.append(Ob(tuple(props), name, fn, split, tier, tuple(functions), (fn.__doc__ or "").strip()))
+        OBLIGATIONS.append(Ob(tuple(props), name, fn, split, tier, tuple(functions), (fn.__doc__ or "").strip(), any_of))
         return fn
 
     return deco
